@@ -227,6 +227,65 @@ fn main() -> Result<()> {
     #[cfg(maidsafe_safe_network_verif)]
     if std::env::var_os("ANTNODE_VERIF_DUMP_OPTS").is_some() {
         println!("{opt:#?}");
+        // ... and what main() below derives from them, by the same conversions (one `key=value` per line)
+        if let Some(network_id) = opt.network_id {
+            version::set_network_id(network_id);
+        }
+        println!(
+            "VERIF-CONVERTED identify_protocol={}",
+            *version::IDENTIFY_PROTOCOL_STR
+                .read()
+                .expect("Failed to obtain read lock for IDENTIFY_PROTOCOL_STR")
+        );
+        if let Some(rewards_address) = opt.rewards_address.as_ref() {
+            println!(
+                "VERIF-CONVERTED rewards_address={}",
+                RewardsAddress::from_hex(rewards_address)?
+            );
+        }
+        let evm_network: EvmNetwork = opt
+            .evm_network
+            .as_ref()
+            .cloned()
+            .map(|v| Ok(v.into()))
+            .unwrap_or_else(get_evm_network_from_env)?;
+        println!("VERIF-CONVERTED evm_network={}", evm_network.identifier());
+        if let EvmNetwork::Custom(custom) = &evm_network {
+            println!("VERIF-CONVERTED evm_rpc_url={}", custom.rpc_url_http);
+            println!(
+                "VERIF-CONVERTED evm_payment_token_address={}",
+                custom.payment_token_address
+            );
+            println!(
+                "VERIF-CONVERTED evm_data_payments_address={}",
+                custom.data_payments_address
+            );
+        }
+        println!(
+            "VERIF-CONVERTED node_socket_addr={}",
+            SocketAddr::new(opt.ip, opt.port)
+        );
+        if opt.root_dir.is_some() {
+            let (root_dir, _keypair) = get_root_dir_and_keypair(&opt.root_dir)?;
+            println!("VERIF-CONVERTED root_dir={}", root_dir.display());
+        }
+        println!("VERIF-CONVERTED log_output_dest={}", opt.log_output_dest);
+        println!(
+            "VERIF-CONVERTED log_format={:?}",
+            opt.log_format.unwrap_or(LogFormat::Default)
+        );
+        if let Some(path) = opt.peers.get_bootstrap_cache_path()? {
+            println!("VERIF-CONVERTED bootstrap_cache_path={}", path.display());
+        }
+        #[cfg(feature = "open-metrics")]
+        println!(
+            "VERIF-CONVERTED metrics_server_port={:?}",
+            if opt.enable_metrics_server || opt.metrics_server_port != 0 {
+                Some(opt.metrics_server_port)
+            } else {
+                None
+            }
+        );
         return Ok(());
     }
 
